@@ -464,6 +464,11 @@ enum FsOp {
     Mkdir(String),
     Rmdir(String),
     Rename(String, String),
+    /// a symbolic link to an existing directory: the notification says "not a directory", the
+    /// source (which follows links) shows a directory
+    SymlinkDir(String),
+    /// a symbolic link to an existing file
+    SymlinkFile(String),
 }
 
 /// (b) real histories on a temporary directory through the real watcher.
@@ -481,7 +486,10 @@ fn real_histories(rep: &mut Report, rng: &mut Rng, n: usize) {
         // inotify instance, whose queue is FIFO, so a delivered sentinel proves that every earlier
         // notification of the history went through the handler (logical barrier, also for a root
         // whose notifications are all lost).
-        let ctl_dir = crate::util::scratch_dir("c12s");
+        // ... and its spelling continues the spelling of the root ("<root>_ctl"): a sibling, not a child
+        let ctl_dir = root.with_file_name(format!("{}_ctl", root.file_name().unwrap().to_str().unwrap()));
+        let _ = std::fs::remove_dir_all(&ctl_dir);
+        std::fs::create_dir_all(&ctl_dir).unwrap();
         let ctl = ctl_dir.canonicalize().unwrap();
         // how the root is spelled when handed to `watch`
         let spelling = ["canonical", "relative", "dot-relative", "symlink", "dotdot"][if h % 2 == 0 { 0 } else { (h / 2) % 5 }];
@@ -524,12 +532,22 @@ fn real_histories(rep: &mut Report, rng: &mut Rng, n: usize) {
         let mut ops = vec![];
         let mut files: Vec<String> = vec!["top.a".into(), "d1/mid.txt".into(), "d1/d2/deep.a".into(), "d1/noext".into()];
         let mut dirs: Vec<String> = vec!["d1".into(), "d1/d2".into()];
+        let mut links: Vec<String> = vec![];
         let mut counter = 0;
         for _ in 0..nops {
             counter += 1;
             let parent = if rng.chance(1, 3) { String::new() } else { rng.pick(&dirs).clone() };
             let j = |n: &str| if parent.is_empty() { n.to_string() } else { format!("{parent}/{n}") };
-            let op = match rng.below(6) {
+            let op = match rng.below(7) {
+                6 => {
+                    let p = j(&format!("lnk{counter}"));
+                    links.push(p.clone());
+                    if rng.chance(1, 2) {
+                        FsOp::SymlinkDir(p)
+                    } else {
+                        FsOp::SymlinkFile(format!("{p}.a"))
+                    }
+                }
                 0 => {
                     let p = j(&format!("new{counter}.a"));
                     files.push(p.clone());
@@ -557,6 +575,7 @@ fn real_histories(rep: &mut Report, rng: &mut Rng, n: usize) {
                     let empty = dirs.iter().position(|d| {
                         d.rsplit('/').next().is_some_and(|n| n.starts_with("nd"))
                             && !files.iter().any(|f| f.starts_with(&format!("{d}/")))
+                            && !links.iter().any(|f| f.starts_with(&format!("{d}/")))
                             && !dirs.iter().any(|o| o.starts_with(&format!("{d}/")))
                     });
                     match empty {
@@ -626,6 +645,16 @@ fn real_histories(rep: &mut Report, rng: &mut Rng, n: usize) {
                     }
                     family = "remove";
                 }
+                FsOp::SymlinkDir(p) => {
+                    std::os::unix::fs::symlink(root.join("d1/d2"), root.join(p)).unwrap();
+                    add(&mut required, &mut allowed, p, Some(true), true);
+                    family = "create";
+                }
+                FsOp::SymlinkFile(p) => {
+                    std::os::unix::fs::symlink(root.join("d1/mid.txt"), root.join(p)).unwrap();
+                    add(&mut required, &mut allowed, p, Some(false), true);
+                    family = "create";
+                }
                 FsOp::Rename(a, b2) => {
                     std::fs::rename(root.join(a), root.join(b2)).unwrap();
                     add(&mut required, &mut allowed, a, Some(false), true);
@@ -670,7 +699,7 @@ fn real_histories(rep: &mut Report, rng: &mut Rng, n: usize) {
             let missing: Vec<String> = required.difference(&got).map(show).collect();
             let extra: Vec<String> = got.difference(&allowed).map(show).collect();
             let place = match op {
-                FsOp::CreateFile(p) | FsOp::Modify(p) | FsOp::DeleteFile(p) | FsOp::Mkdir(p) | FsOp::Rmdir(p) | FsOp::Rename(_, p) => {
+                FsOp::CreateFile(p) | FsOp::Modify(p) | FsOp::DeleteFile(p) | FsOp::Mkdir(p) | FsOp::Rmdir(p) | FsOp::Rename(_, p) | FsOp::SymlinkDir(p) | FsOp::SymlinkFile(p) => {
                     if p.contains('/') {
                         "nested"
                     } else {
@@ -703,6 +732,9 @@ fn real_histories(rep: &mut Report, rng: &mut Rng, n: usize) {
             }
             rep.count("real_operations", 1);
             rep.seen("real_op_kinds", &format!("{family}:{place}"));
+            if matches!(op, FsOp::SymlinkDir(_) | FsOp::SymlinkFile(_)) {
+                rep.count("real_symlink_operations", 1);
+            }
             rep.nontrivial(mix(0x4ea1, fnv_str(&format!("{op:?}{h}"))));
         }
         if all_ok && rep.samples.len() < 3 {
